@@ -66,6 +66,13 @@ CHECKS = {
         "quick": [{"test": "TestC11", "checks": 120, "shards": 8}],
         "thorough": [{"test": "TestC11", "checks": 2500, "shards": 16, "env": {"VERIF_TIER": "thorough"}}],
     },
+    "C18": {
+        "level": "exploration",
+        "rule": "programs of 1-30 steps over {Set, Delete (incl. empty key / nil value probes), Get+Has, batch (Set/Delete..., Write|WriteSync|Close, then reuse attempts), forward/reverse iterators with bounds nil / stored key / extension / prefix / random, fully or partially consumed and closed inside the step} with keys over the alphabet {00,01,'a',FE,FF} (length 0-4), executed on MemDB, PrefixDB(MemDB), PrefixDB(PrefixDB(MemDB)) (and GoLevelDB, PrefixDB(GoLevelDB) in the LevelDB slice) with prefixes incl. FF, FF FF, 'a' FF, FE FF FF; every parent store is pre-seeded with keys outside the namespace (the prefix itself, prefix minus last byte, incremented prefix and its extensions, just-below keys, FF runs). Oracle: one sorted-map model; identical observable results on all backends; after every step each view dumps exactly the model and the outside keys of each parent are unchanged. non-trivial = an iterator bound equal to a stored key, or a range that splits the key set",
+        "assumptions": ["rapid v1.3.0", "Go toolchain", "writes under an open iterator are excluded (MemDB iterators hold the RWMutex; caller error)", "empty prefix excluded (cpIncr documents len>0)"],
+        "quick": [{"test": "TestC18", "checks": 1500, "shards": 6}, {"test": "TestC18", "checks": 150, "shards": 2, "env": {"VERIF_LEVEL": "1"}}],
+        "thorough": [{"test": "TestC18", "checks": 60000, "shards": 12}, {"test": "TestC18", "checks": 5000, "shards": 4, "env": {"VERIF_LEVEL": "1"}}],
+    },
     "C12": _world("TestC12", _R["C12"], 700, 40000),
     "C13": {
         "level": "exploration",
